@@ -198,8 +198,8 @@ class DuplicateNamer(Monitor):
 def replenish_refused(world, crash):
     """An engine-chosen burn or deal was refused for lack of cards although deck + burns + muck + discards hold
     enough cards that are not in play: the deck was not replenished when it ran out."""
-    if 'not enough cards' not in str(crash.exc) or world.in_call is None:
-        return None
+    if 'not enough cards' not in str(crash.exc) or world.in_call is None or crash.log_grew:
+        return None         # (log grew: the call itself went through and a step of the following automation cascade ran dry)
     name, args = world.in_call
     st = world.state
     if name == 'burn_card' and not args:
